@@ -39,17 +39,19 @@ PROPS = {
 
     "C01": {
         "inv": ["BaseWorkflow.__check_ready", "BaseWorkflow.__check_working", "BaseWorkflow.__check_finished",
-                "BaseTask.record_state", "BaseTask.initialize"],
+                "BaseTask.record_state", "BaseTask.initialize", "BaseWorkflow.initialize", "BaseProject.simulate"],
         "static": COMMON_STATIC,
         "level_text": "The three state-changing phases of a step are verified against two-state contracts for every workflow, "
                       "every mix of FS/SS/FF/SF links and EVERY iteration order of the internal task sets (set loops are cut at "
                       "invariants over an arbitrary enumeration): a task changes state only NONE->READY, READY->WORKING, "
                       "WORKING->FINISHED and only through the gate the property states; the log display rule is verified.",
-        "level_note": "Function-level (modular) proof; the composition over BaseProject.simulate (phase order, log clause) is not yet "
-                      "discharged here. Trusted: pyvc, z3/cvc5, set/filter axioms, A6 arbitrary set order, well-formed references.",
+        "level_note": "Composition: the body of BaseProject.simulate is executed against the phase contracts; the step clause "
+                      "`lifecycle-only-advances` is an obligation of every iteration of the main loop (all run lengths). The allocation "
+                      "phase enters through an assumed contract (frame: it does not write BaseTask.state). Trusted: pyvc, z3/cvc5, set/filter axioms, A6.",
         "design_ref": "DESIGN.md section 6 C01",
         "assumptions": ["preconditions: task/worker/facility references are not None; resources of a task are held exclusively (C03 a,b) when __check_finished runs",
-                        "not yet discharged: the step relation over BaseProject.simulate (phase order) and the derived log statement"],
+                        "BaseProject.__allocate and BaseProduct.check_removing_placed_workplace enter the composition through assumed frames (they do not write BaseTask.state; checked syntactically by static:frames)",
+                        "the statement over recorded logs follows from the step clause plus C08 (last entry = live state); that derivation is not mechanised"],
         "explanation": "two-state contracts of __check_ready/__check_working/__check_finished, arbitrary set order",
     },
     "C02": {
@@ -70,7 +72,7 @@ PROPS = {
         "explanation": "perform / skill progress / finish threshold",
     },
     "C07": {
-        "inv": ["BaseTeam.add_labor_cost", "BaseWorkplace.add_labor_cost", "BaseOrganization.add_labor_cost"],
+        "inv": ["BaseTeam.add_labor_cost", "BaseWorkplace.add_labor_cost", "BaseOrganization.add_labor_cost", "BaseProject.simulate"],
         "static": COMMON_STATIC,
         "level_text": "The add_labor_cost chain is verified for all organizations, cost rates, states and flag combinations: every "
                       "worker/facility gets exactly one entry (cost_per_time iff WORKING under only_working, 0 in zero mode), each "
@@ -90,7 +92,7 @@ PROPS = {
                 "BaseWorkflow.record", "BaseProduct.record", "BaseTeam.record_assigned_task_id", "BaseTeam.record_all_worker_state",
                 "BaseWorkplace.record_assigned_task_id", "BaseWorkplace.record_all_facility_state", "BaseComponent.initialize",
                 "BaseTask.initialize", "BaseWorker.initialize", "BaseFacility.initialize", "BaseTeam.initialize",
-                "BaseWorkplace.initialize", "BaseProduct.initialize"],
+                "BaseWorkplace.initialize", "BaseProduct.initialize", "BaseProject.simulate", "BaseProject.initialize", "BaseWorkflow.initialize", "BaseOrganization.initialize", "BaseOrganization.record"],
         "static": COMMON_STATIC,
         "level_text": "Every record_* method is proved to append exactly one entry equal to the live attribute (with the display rule), "
                       "every aggregating record method to do so once for every member and nothing else (frames), for all models.",
@@ -178,5 +180,54 @@ PROPS = {
         "assumptions": ["FS-only acyclic network with a rank function, two-way consistent links, remaining work >= 0, a task without successors exists",
                         "bounded stand-in: <= 3 tasks, <= 3 edges per task"],
         "explanation": "PERT passes",
+    },
+
+    "C05": {
+        "inv": ["BaseProject.simulate", "BaseProject.initialize", "BaseWorkflow.initialize", "BaseWorkflow.__check_ready",
+                "BaseWorkflow.__check_working", "BaseWorkflow.__check_finished"],
+        "static": COMMON_STATIC,
+        "level_text": "Safety clauses, unbounded: BaseProject.simulate is verified against its contract with an inductive invariant of the "
+                      "main loop (every model, every run length, every absence list): status is FINISHED_SUCCESS iff all tasks are "
+                      "FINISHED at return, FINISHED_FAILURE only with time >= max_time, no step is simulated at or beyond max_time, "
+                      "every step advances time by one. Completion clause: only its local lemmas are discharged (gate completeness of "
+                      "__check_ready/__check_working/__check_finished incl. a started-and-finished predecessor; D1 fixed).",
+        "level_note": "Liveness (every feasible project completes) is a whole-history property: the well-founded-measure argument is not "
+                      "mechanised (DESIGN section 7). Termination of simulate itself is not proved (A9). unit_time == 1 in the proof.",
+        "design_ref": "DESIGN.md section 6 C05",
+        "assumptions": ["unit_time == 1", "BaseProject.__allocate / check_removing_placed_workplace: assumed frame contracts",
+                        "completion (liveness) clause: NOT decided; only the local lemmas L2/L3 (gate completeness) are proved"],
+        "explanation": "simulate: status/time clauses as loop invariant + posts at each return site",
+    },
+    "C06": {
+        "inv": ["BaseWorkflow.__check_ready", "BaseWorkflow.__check_working", "BaseWorkflow.__check_finished", "BaseTask.can_add_resources"],
+        "static": COMMON_STATIC,
+        "level_text": "Clauses (a), (b), (d) are completeness postconditions proved for all workflows and every set iteration order: a NONE "
+                      "task whose start gate is open (FS predecessors FINISHED, SS predecessors started, including started-and-finished) "
+                      "leaves NONE in the ready phase; a READY task with workers, or a free automatic task, starts in the working phase; "
+                      "a WORKING task with remaining work < tol whose finish gate was already open finishes in the finish phase.",
+        "level_note": "Clause (c) (no idle eligible worker after allocation) is a property of BaseProject.__allocate, which is not yet under "
+                      "a verified contract; `already open` in (d) is the order-independent reading (predecessors finished before the phase).",
+        "design_ref": "DESIGN.md section 6 C06",
+        "assumptions": ["clause (c) idle-worker: not yet decided (bounded stand-in for __allocate pending)"],
+        "explanation": "completeness of the three state phases",
+    },
+    "C10": {
+        "inv": ["BaseProject.simulate", "BaseOrganization.set_absence_state_to_all_workers_facilities", "BaseTeam.set_absence_state_to_all_workers",
+                "BaseWorkplace.set_absence_state_to_all_facilities", "BaseOrganization.add_labor_cost",
+                "BaseWorker.get_work_amount_skill_progress", "BaseFacility.get_work_amount_skill_progress", "BaseTask.perform",
+                "BaseWorkflow.perform", "BaseWorker.record_state", "BaseFacility.record_state",
+                "BaseWorker.check_update_state_from_absence_time_list", "BaseFacility.check_update_state_from_absence_time_list",
+                "BaseWorkflow.__check_working"],
+        "static": COMMON_STATIC,
+        "level_text": "Clause 1 (project-wide absence step) is a set of step obligations of the main loop of simulate, for all models and "
+                      "absence lists: nothing is allocated, every worker/facility is logged ABSENCE and charged 0.0, and remaining work "
+                      "changes only for automatic tasks when the flag is set (or is clamped to 0 by finishing). Clause 2 (individual "
+                      "absence) is function-level: ABSENCE from the absence list, contributes 0 progress, cost 0 unless WORKING, and "
+                      "an absent resource of a running task stays ABSENCE.",
+        "level_note": "Clause 3 (deleting absence steps == simulating without them) is a two-run relational statement; it is not decided "
+                      "(needs the C18 contracts and a product obligation).",
+        "design_ref": "DESIGN.md section 6 C10",
+        "assumptions": ["clause 3 not decided", "BaseProject.__allocate is syntactically not called on an absence step (it is under `if working`; seen by symbolic execution of the real body)"],
+        "explanation": "absence arm of the step body",
     },
 }
